@@ -785,6 +785,20 @@ func (sc *specCtx) call(n *SCall) SV {
 			return SV{T: fmt.Sprintf("(srune %s)", sc.mat(v)), Ty: types.Typ[types.String]}
 		}
 		return v
+	case "fn":
+		// fn("name"): the function value of a package-level function
+		name := n.Args[0].(*SStr).V
+		f := e.m.funcs[name]
+		if f == nil {
+			return sc.fail("fn: unknown function %s", name)
+		}
+		return SV{T: e.fnRef(f), Ty: f.Signature}
+	case "thisfn":
+		// thisfn(): in a function-type contract, the function value being called / verified
+		if v, ok := sc.vars["$thisfn"]; ok {
+			return v
+		}
+		return sc.fail("thisfn() used outside a function-type contract")
 	case "sameBacking":
 		// sameBacking(s, t): slices s and t share base, offset and capacity (t is s re-sliced in length only)
 		a, b := sc.mat(arg(0)), sc.mat(arg(1))
